@@ -61,6 +61,11 @@ func (rm *ResponseManager) processRequests(p peer.ID, requests []gsmsg.GraphSync
 	defer messageSpan.End()
 
 	for _, request := range requests {
+		// a peer can only address the responses that are being served to it
+		if response, ok := rm.inProgressResponses[request.ID()]; ok && response.peer != p {
+			log.Warnf("ignoring %s request from peer %s: request ID %s is in use by peer %s", request.Type(), p, request.ID().String(), response.peer)
+			continue
+		}
 		switch request.Type() {
 		case graphsync.RequestTypeCancel:
 			_ = rm.abortRequest(ctx, request.ID(), ipldutil.ContextCancelError{})
